@@ -133,6 +133,23 @@ AddNullSyst(i, j, t) ==
      /\ prog' = Append(prog, [op |-> "add_null_syst", ch |-> w.channels[i].name, sample |-> sm.name, type |-> t, name |-> n])
   /\ UNCHANGED <<seed, bmap, scale>>
 
+\* ... and the same under the NAME of an existing parameter of the other alpha type: a null normsys named like an existing histosys
+\* (or a null histosys named like an existing normsys) shares that parameter and its single constraint term, and changes nothing
+TypesOfName(x) == {w.channels[t[1]].samples[t[2]].mods[t[3]].type :
+                     t \in {t \in (DOMAIN w.channels) \X (1..4) \X (1..8) :
+                               /\ t[2] \in DOMAIN w.channels[t[1]].samples
+                               /\ t[3] \in DOMAIN w.channels[t[1]].samples[t[2]].mods
+                               /\ w.channels[t[1]].samples[t[2]].mods[t[3]].name = x}}
+AddNullShared(i, j, x) ==
+  /\ Room /\ i \in DOMAIN w.channels /\ j \in DOMAIN w.channels[i].samples /\ x \in ParamNames(w)
+  /\ TypesOfName(x) = {HISTOSYS}      \* (the mirror case, a null histosys under a normsys name, is left out)
+  /\ ~(\E q \in DOMAIN w.channels[i].samples[j].mods : w.channels[i].samples[j].mods[q].name = x)
+  /\ LET t == IF TypesOfName(x) = {HISTOSYS} THEN NORMSYS ELSE HISTOSYS  sm == w.channels[i].samples[j] IN
+     /\ w' = [w EXCEPT !.channels[i].samples[j].mods =
+                 Append(@, IF t = HISTOSYS THEN Mod(x, t, sm.data, sm.data) ELSE Mod(x, t, <<ROne>>, <<ROne>>))]
+     /\ prog' = Append(prog, [op |-> "add_null_syst", ch |-> w.channels[i].name, sample |-> sm.name, type |-> t, name |-> x])
+  /\ UNCHANGED <<seed, pmap, bmap, scale>>
+
 \* split the bins of a channel after bin k into two channels (only channels without bin-wise parameters)
 SplitChannel(i, k) ==
   /\ Room /\ i \in DOMAIN w.channels
@@ -198,6 +215,7 @@ Next ==
   \/ \E o \in {1, 2}, n \in {4} : RenameSample(o, n)
   \/ \E i \in 1..3 : AddZeroSample(i)
   \/ \E i \in 1..3, j \in 1..3, t \in {HISTOSYS, NORMSYS} : AddNullSyst(i, j, t)
+  \/ \E i \in 1..3, j \in 1..3, x \in {1, 2, 7} : AddNullShared(i, j, x)
   \/ \E i \in 1..3, k \in 1..2 : SplitChannel(i, k)
   \/ \E i \in 1..3, j1 \in 1..3, j2 \in 1..3 : MergeSamples(i, j1, j2)
   \/ \E k \in {R(2), RN(1, 2)} : ScaleSignal(k)
